@@ -322,6 +322,81 @@ func vC16RunStruct(k *vKit, c vSx) {
 		if obs.l[0].i64() == 2 {
 			fail(idx, "decrypt-no-panic", fmt.Sprintf("decrypt with a %d byte iv panicked", len(iv)))
 		}
+	case 21, 22:
+		kk, name := c.l[1].int(), string(c.l[2].b)
+		var sk, vk interface{}
+		switch kk {
+		case 0:
+			b := bytes.Repeat([]byte{7}, 32)
+			sk, vk = b, b
+		case 1:
+			sk, vk = vC16K.rsa, &vC16K.rsa.PublicKey
+		default:
+			crv := map[int]string{256: "P-256", 384: "P-384", 521: "P-521"}[kk]
+			sk, vk = vC16K.ec[crv], &vC16K.ec[crv].PublicKey
+		}
+		// RFC 7518 3.1: which algorithm goes with which key
+		want := map[string]int{"HS256": 0, "HS384": 0, "HS512": 0, "RS256": 1, "RS384": 1, "RS512": 1, "PS256": 1, "PS384": 1, "PS512": 1,
+			"ES256": 256, "ES384": 384, "ES512": 521}
+		wk, known := want[name]
+		if kind == 21 {
+			obs := vGuard(func() vSx {
+				s, err := NewSigner(SignatureAlgorithm(name), sk)
+				if err == ErrUnsupportedAlgorithm || (err != nil && strings.Contains(err.Error(), "failed to compute hmac")) {
+					return vErr(1)
+				} else if err != nil {
+					return vErr(3)
+				}
+				o, err := s.Sign([]byte("glue"))
+				if err == ErrUnsupportedAlgorithm {
+					return vErr(1)
+				} else if err != nil {
+					if strings.Contains(err.Error(), "bit key") {
+						return vErr(2)
+					}
+					return vErr(3)
+				}
+				if kk == 1 {
+					return vOk(vZ(0))
+				}
+				return vOk(vI(len(o.Signatures[0].Signature)))
+			})
+			idx := k.record(c, obs, true)
+			k.count("kind", "sign-glue")
+			if obs.l[0].i64() == 2 {
+				fail(idx, "glue-no-panic", fmt.Sprintf("NewSigner/Sign(%q) with key kind %d panicked", name, kk))
+			} else if (obs.l[0].i64() == 0) != (known && wk == kk) {
+				fail(idx, "glue-rfc7518-table", fmt.Sprintf("Sign with alg %q and key kind %d: %s", name, kk, obs))
+			}
+			return
+		}
+		sl := c.l[3].int()
+		obs := vGuard(func() vSx {
+			v, err := newVerifier(vk)
+			if err != nil {
+				return vErr(3)
+			}
+			err = v.verifyPayload([]byte("glue"), make([]byte, sl), SignatureAlgorithm(name))
+			// symmetricMac wraps its ErrUnsupportedAlgorithm into "failed to compute hmac"
+			if err == ErrUnsupportedAlgorithm || (err != nil && strings.Contains(err.Error(), "failed to compute hmac")) {
+				return vErr(1)
+			}
+			if err != nil && strings.Contains(err.Error(), "invalid signature size") {
+				return vErr(2)
+			}
+			return vOk()
+		})
+		idx := k.record(c, obs, true)
+		k.count("kind", "verify-glue")
+		if obs.l[0].i64() == 2 {
+			fail(idx, "glue-no-panic", fmt.Sprintf("verifyPayload(%q, %d bytes) with key kind %d panicked", name, sl, kk))
+		}
+		if kk > 1 && known && wk > 1 {
+			ks := map[int]int{256: 32, 384: 48, 521: 66}[wk]
+			if (obs.l[0].i64() == 0) != (sl == 2*ks) {
+				fail(idx, "glue-ecdsa-length-exact", fmt.Sprintf("%s signature of %d bytes: %s", name, sl, obs))
+			}
+		}
 	default:
 		k.record(c, vL(vZ(-1)), false)
 	}
@@ -381,6 +456,15 @@ func vC16Mutate(r *vRng, s string) string {
 }
 
 func vC16GenStruct(k *vKit, r *vRng) vSx {
+	if r.chance(1, 12) {
+		name := r.pickStr("HS256", "HS384", "HS512", "RS256", "RS384", "RS512", "PS256", "PS384", "PS512", "ES256", "ES384", "ES512",
+			"none", "", "HS257", "ES256 ", "hs256", "dir", "RSA1_5", "ES521", "A128KW")
+		kk := r.pickInt(0, 1, 256, 384, 521)
+		if r.chance(1, 2) {
+			return vL(vZ(21), vI(kk), vS(name))
+		}
+		return vL(vZ(22), vI(kk), vS(name), vI(r.pickInt(64, 96, 132, 63, 65, 95, 97, 131, 133, 0, 32, 48, 256, 128, 192, 264)))
+	}
 	switch r.intn(12) {
 	case 0, 1:
 		return vL(vZ(1), vB(r.bytes(r.pickInt(0, 1, 2, 3, 4, 5, 15, 16, 17, 100, r.intn(64)))))
@@ -459,6 +543,14 @@ func TestVerifC16(t *testing.T) {
 	}
 	vC16Fixed(k)
 	vC16JWKFuzz(k)
+	for _, kk := range []int{0, 1, 256, 384, 521} { // the whole 5 x 12 table, and every length around 2*keySize
+		for _, a := range vC16SigAlgs {
+			runOne(vL(vZ(21), vI(kk), vS(string(a))))
+			for _, sl := range []int{63, 64, 65, 95, 96, 97, 131, 132, 133} {
+				runOne(vL(vZ(22), vI(kk), vS(string(a)), vI(sl)))
+			}
+		}
+	}
 	for b := 0; b <= 48; b++ {
 		runOne(vL(vZ(1), vB(k.rnd.bytes(b))))
 	}
